@@ -792,17 +792,17 @@ fn sort<T: RealNumber, M: BaseMatrix<T>>(d: &mut [T], e: &mut [T], V: &mut M) {
             if d[i as usize] >= d[j] {
                 break;
             }
-            d[i as usize + 1] = d[i as usize];
-            e[i as usize + 1] = e[i as usize];
+            d[(i + 1) as usize] = d[i as usize];
+            e[(i + 1) as usize] = e[i as usize];
             for k in 0..n {
-                V.set(k, i as usize + 1, V.get(k, i as usize));
+                V.set(k, (i + 1) as usize, V.get(k, i as usize));
             }
             i -= 1;
         }
-        d[i as usize + 1] = real;
-        e[i as usize + 1] = img;
+        d[(i + 1) as usize] = real;
+        e[(i + 1) as usize] = img;
         for (k, temp_k) in temp.iter().enumerate().take(n) {
-            V.set(k, i as usize + 1, *temp_k);
+            V.set(k, (i + 1) as usize, *temp_k);
         }
     }
 }
